@@ -139,7 +139,7 @@ type workerProc struct {
 
 func startWorker(memMB, timeoutMs int) *workerProc {
 	cmd := exec.Command(os.Args[0], "worker")
-	cmd.Env = append(os.Environ(), fmt.Sprintf("GOMEMLIMIT=%dMiB", memMB), "GOTRACEBACK=single", "GOMAXPROCS=2",
+	cmd.Env = append(os.Environ(), fmt.Sprintf("GOMEMLIMIT=%dMiB", memMB), "GOTRACEBACK=single", "GOMAXPROCS=2", "GORACE=halt_on_error=1",
 		fmt.Sprintf("VERIF_CASE_TIMEOUT_MS=%d", timeoutMs))
 	stdin, _ := cmd.StdinPipe()
 	stdout, _ := cmd.StdoutPipe()
@@ -328,6 +328,9 @@ func runMain(args []string) {
 						tb = tb[strings.Index(tb, "VERIF-WATCHDOG timeout"):]
 					}
 					switch {
+					case strings.Contains(tb, "WARNING: DATA RACE"):
+						kind = "data-race"
+						tb = tb[strings.Index(tb, "WARNING: DATA RACE"):]
 					case strings.Contains(tb, "stack exceeds"):
 						kind = "stack-overflow"
 					case strings.Contains(tb, "out of memory") || strings.Contains(tb, "cannot allocate"):
